@@ -262,6 +262,21 @@ def compile_error_spans(out):
     return spans
 
 
+def stub_user_spans(scratch, stub_name):
+    """Lines of all overlay functions that carry a kani::stub attribute naming `stub_name`."""
+    spans = []
+    for f in glob.glob(os.path.join(scratch, "src", "verif_h", "*.rs")):
+        src = open(f).read().split("\n")
+        for i, l in enumerate(src):
+            if "kani::stub(" in l and l.rstrip().endswith("::" + stub_name + "))]"):
+                # the function the attribute belongs to starts within the next few lines
+                for j in range(i, min(i + 8, len(src))):
+                    if re.match(r"^(pub(\([a-z]+\))? )?fn \w+", src[j]):
+                        spans.append((os.path.basename(f), j + 2))
+                        break
+    return spans
+
+
 def drop_function_bodies(scratch, spans):
     """Replaces the body of each overlay function containing an error line. Returns names dropped."""
     dropped = []
@@ -700,6 +715,8 @@ def check(prop, tier, keep=False, only=None):
             attempts = 0
             while not res and rc != 0 and attempts < 3:
                 spans = compile_error_spans(out)
+                for sm in re.finditer(r"(?:arity|signature|type) mismatch[^\n]*stub `([^`]+)`", out):
+                    spans += stub_user_spans(scratch, sm.group(1).split("::")[-1])
                 if not spans:
                     break
                 names = drop_function_bodies(scratch, spans)
@@ -793,7 +810,8 @@ def check(prop, tier, keep=False, only=None):
                         return True  # tool limit, not a property of the code
                     if "overlay_function_dropped_because_it_no_longer_compiles" in fc["description"]:
                         return True
-                    return fc["description"].startswith("unwinding assertion") and ("verif_h" in fc["function"] or fc["file"].startswith("<builtin"))
+                    # (the file decides: generic crate functions carry `verif_h::model::TP` in their names)
+                    return fc["description"].startswith("unwinding assertion") and ("verif_h/" in fc["file"] or fc["file"].startswith("<builtin"))
                 real = [fc for fc in r["failed_checks"] if not internal(fc)]
                 if not real:
                     undecided.append("harness %s: only harness-internal unwinding bounds / unsupported constructs failed (%s) - undecided" %
